@@ -9,5 +9,90 @@ def run(tier):
     r.explanation = ('Engine C: VCs generated from the clang AST of the real c_grid.c (numbering, centres, footprint -> cell, outside -> -1, '
                      'neighbour slots, lemmas nbr_mirror / footprint_forms over the specs), discharged by z3/cvc5; bounded clauses are '
                      'differential runs of the real kernels under ASan/UBSan and are not counted as proved')
+    try:
+        import traceback
+        from vf import pproof, engp
+        obls, npaths = wrapper_obligations()
+        pproof.discharge(r, obls, file='src/hydrodiy/gis/grid.py', fn_of=lambda ob: ob.id.split('/')[1] + ' (python wrapper)')
+        r.functions += [dict(file='grid.py', fn=f + ' (python wrapper)', trusted=['c_hydrodiy_gis (replaced by a recorder: its behaviour is the proved kernel contract)'], nonterminating=[], cutloops=0, unrolled=0, terminating=0) for f in ('Grid.coord2cell', 'Grid.cell2coord')]
+        r.extra['paths_explored'] = npaths
+    except (engp.Unsupported, engp.PathLimit) as e:
+        r.undecided.append('Engine P cannot execute the current Grid wrappers symbolically: %s' % (str(e)[:300],))
+    except Exception:
+        r.broken.append('C07 Engine P driver crashed: ' + traceback.format_exc()[-2500:])
     cm.run_monitors(r, ['mon_grid_api'])
     return r.finish()
+
+
+# ------------------------------------------------------------------------------------------------ Engine P: the python wrappers Grid.coord2cell / cell2coord
+def wrapper_obligations():
+    """the real Grid.coord2cell / Grid.cell2coord with the compiled module replaced by a recorder: the kernel is entered once with the grid's own
+    geometry (rows, columns, corner, cell size), the caller's coordinates / cell numbers unchanged and an output buffer of the right shape;
+    what the kernel wrote is returned.  Grid shapes are enumerated (incl. non-square), coordinates and the geometry's real numbers are symbolic."""
+    import numpy as np, z3
+    from vf import engp, pproof, pybuild
+    from vf.engp import sym, SymReal, SA
+    pybuild.activate()
+    from hydrodiy.gis import grid as G
+
+    class Kernel:
+        def __init__(self):
+            self.calls = []
+
+        def coord2cell(self, nrows, ncols, xll, yll, csz, xycoords, idxcell):
+            self.calls.append(dict(fn='coord2cell', nrows=int(nrows), ncols=int(ncols), geo=(xll, yll, csz), xy=np.asarray(xycoords, dtype=object).copy(), out0=[int(v) for v in idxcell], odtype=np.asarray(idxcell).dtype))
+            idxcell[:] = [5, -1, 0][:len(idxcell)]
+            return 0
+
+        def cell2coord(self, nrows, ncols, xll, yll, csz, idxcells, xycoords):
+            self.calls.append(dict(fn='cell2coord', nrows=int(nrows), ncols=int(ncols), geo=(xll, yll, csz), cells=[int(v) for v in idxcells], cdtype=np.asarray(idxcells).dtype, oshape=np.shape(xycoords)))
+            self.written = np.arange(2 * len(idxcells), dtype=float).reshape(len(idxcells), 2) + 0.5
+            xycoords[:] = self.written
+            return 0
+
+    obls = []; npaths = 0
+    npt = 3
+    P = [[sym('p%d_%d' % (i, k)) for k in range(2)] for i in range(npt)]
+    gx, gy, gc = sym('xll'), sym('yll'), sym('csz')
+    names = ['p%d_%d' % (i, k) for i in range(npt) for k in range(2)] + ['xll', 'yll', 'csz']
+    eq = lambda a, b: z3.And(z3.Not(SymReal.lift(a).nan), SymReal.lift(a).val == SymReal.lift(b).val)
+    for (nr, nc) in ((1, 1), (2, 5), (7, 3)):
+        for fn in ('coord2cell', 'cell2coord'):
+            kern = Kernel()
+
+            def run():
+                kern.calls = []
+                g = G.Grid('g', ncols=nc, nrows=nr)
+                g.xllcorner = gx; g.yllcorner = gy; g.cellsize = gc          # the grid's own geometry, as real numbers
+                if fn == 'coord2cell':
+                    a = np.empty((npt, 2), dtype=object)
+                    for i in range(npt):
+                        a[i, :] = P[i]
+                    return g.coord2cell(a.view(SA)), list(kern.calls)
+                return g.cell2coord([0, nr * nc - 1, 1 if nr * nc > 1 else 0]), list(kern.calls)
+            saved = (G.np, G.c_hydrodiy_gis, G.has_c_module)
+            G.np = engp.NPProxy(); G.c_hydrodiy_gis = kern; G.has_c_module = lambda *a, **kw: True
+            try:
+                paths = engp.explore(run, base=[gc.val > 0], allowed_exc=())
+            finally:
+                G.np, G.c_hydrodiy_gis, G.has_c_module = saved
+            npaths += len(paths)
+            for kp, pa in enumerate(paths):
+                out, calls = pa.result
+                hyp = [gc.val > 0] + list(pa.pc) + list(pa.axioms)
+                tag = 'grid.py/Grid.%s/%dx%d/path%d' % (fn, nr, nc, kp)
+                if len(calls) != 1:
+                    obls.append(pproof.PObligation(tag + '/one-kernel-call', 'post', 'the kernel is entered exactly once', hyp, z3.BoolVal(False), names)); continue
+                c = calls[0]
+                obls.append(pproof.PObligation(tag + '/geometry', 'post', 'the kernel receives the number of rows and columns and the corner / cell size of the grid itself', hyp,
+                                               z3.And(z3.BoolVal(c['nrows'] == nr and c['ncols'] == nc), eq(c['geo'][0], gx), eq(c['geo'][1], gy), eq(c['geo'][2], gc)), names))
+                if fn == 'coord2cell':
+                    obls.append(pproof.PObligation(tag + '/coordinates', 'post', 'the kernel receives the coordinates unchanged (x in the first column, y in the second) and a zeroed int64 buffer of one cell number per point', hyp,
+                                                   z3.And(z3.BoolVal(c['xy'].shape == (npt, 2) and c['out0'] == [0] * npt and c['odtype'] == np.int64), *[eq(c['xy'][i, k], P[i][k]) for i in range(npt) for k in range(2)]), names))
+                    obls.append(pproof.PObligation(tag + '/returns-kernel-output', 'post', 'the cell numbers written by the kernel are returned', hyp, z3.BoolVal([int(v) for v in out] == [5, -1, 0]), names))
+                else:
+                    want = [0, nr * nc - 1, 1 if nr * nc > 1 else 0]
+                    obls.append(pproof.PObligation(tag + '/cells', 'post', 'the kernel receives the cell numbers unchanged (int64) and an n x 2 buffer', hyp,
+                                                   z3.BoolVal(c['cells'] == want and c['cdtype'] == np.int64 and tuple(c['oshape']) == (3, 2)), names))
+                    obls.append(pproof.PObligation(tag + '/returns-kernel-output', 'post', 'the coordinates written by the kernel are returned', hyp, z3.BoolVal(bool(np.array_equal(np.asarray(out, dtype=float), kern.written))), names))
+    return obls, npaths
